@@ -39,7 +39,46 @@ fn run_extracted(c: &SeqCase) -> Vec<Ev> {
     r.events
 }
 
+/// mode 9: a fixed large case — judged by the main run only (validity + replay)
+const MODE_LARGE: u8 = 9;
+
+/// both sides are the very same buffer (aliasing), with independent ranges
+fn check_alias(c: &SeqCase, obs: &mut Obs) -> Verdict {
+    let buf = &c.old;
+    let nr = (c.nr.0.min(buf.len()), c.nr.1.min(buf.len()));
+    let nr = (nr.0.min(nr.1), nr.1);
+    let alg = alg_of(c.alg);
+    let same = guard(|| {
+        let mut r = Recorder::new();
+        algorithms::diff(alg, &mut r, &buf[..], c.old_r(), &buf[..], nr.0..nr.1).unwrap();
+        r.events
+    });
+    let copy = buf.clone();
+    let sep = guard(|| {
+        let mut r = Recorder::new();
+        algorithms::diff(alg, &mut r, &buf[..], c.old_r(), &copy[..], nr.0..nr.1).unwrap();
+        r.events
+    });
+    let (same, sep) = match (same, sep) {
+        (Ok(a), Ok(b)) => (a, b),
+        (Err(p), _) | (_, Err(p)) => return Verdict::Fail(format!("diffing one buffer against itself: {}", p)),
+    };
+    if let Err(m) = validate_raw(&same, c.old_r(), nr.0..nr.1, &|i, j| buf[i] == buf[j]) {
+        return Verdict::Fail(format!("{}: old and new are the same buffer {:?} with ranges {:?} / {:?}: stream {:?}: {}", alg_name(c.alg), buf, c.or, nr, same, m));
+    }
+    if same != sep {
+        return Verdict::Fail(format!("{}: diffing a buffer against itself gives {:?}, against an equal copy {:?}", alg_name(c.alg), same, sep));
+    }
+    obs.executions = 2;
+    obs.nontrivial = c.or != nr && c.or.1 > c.or.0 && nr.1 > nr.0;
+    obs.class("old and new alias the same buffer");
+    Verdict::Pass
+}
+
 pub fn check_case(c: &SeqCase, obs: &mut Obs) -> Verdict {
+    if c.mode == 1 {
+        return check_alias(c, obs);
+    }
     let (old, new) = (&c.old, &c.new);
     let eq = |i: usize, j: usize| old[i] == new[j];
     obs.executions = 4;
@@ -61,6 +100,14 @@ pub fn check_case(c: &SeqCase, obs: &mut Obs) -> Verdict {
                 ev
             ))
         }
+    }
+    if c.mode == MODE_LARGE {
+        let (d, i, e) = events_cost(&ev);
+        obs.executions = 1;
+        obs.nontrivial = e > 0 && d + i > 0;
+        obs.class("fixed large case");
+        obs.class(alg_name(c.alg));
+        return Verdict::Pass;
     }
     // the same diff through a range-checked lookup and the per-module entry point
     match guard(|| run_strict_module(c)) {
@@ -109,7 +156,45 @@ pub fn check_case(c: &SeqCase, obs: &mut Obs) -> Verdict {
 }
 
 fn strat(tier: Tier) -> BoxedStrategy<SeqCase> {
-    seq_case(tier.pick(120, 300), true, 1)
+    // mode 0: the four-way differential; mode 1 (1 in 8): both sides alias one buffer
+    (seq_case(tier.pick(120, 300), true, 1), 0u8..8)
+        .prop_map(|(mut c, m)| {
+            c.mode = if m == 1 { 1 } else { 0 };
+            c
+        })
+        .boxed()
+}
+
+/// fixed large cases: deep Myers searches, long Patience inputs, big LCS tables
+fn enum_large(tier: Tier, f: &mut dyn FnMut(SeqCase) -> bool) {
+    let distinct = |from: u32, n: usize| -> Vec<u32> { (from..from + n as u32).collect() };
+    let mut cases: Vec<SeqCase> = vec![];
+    for alg in [0u8, 1] {
+        // edit distance in the thousands, one side much shorter than the other
+        cases.push(SeqCase::full(alg, distinct(0, 100), distinct(10_000, 2100)));
+        cases.push(SeqCase::full(alg, distinct(0, 1600), distinct(10_000, 1600)));
+        cases.push(SeqCase::full(alg, lcg_seq(1, 3000, 7), lcg_seq(2, 2500, 7)));
+        // near-identical long inputs
+        let a = lcg_seq(3, 20_000, 1000);
+        let mut b = a.clone();
+        b[7] = 5000;
+        b.remove(15_000);
+        b.insert(123, 6000);
+        cases.push(SeqCase::full(alg, a, b));
+    }
+    // LCS tables: 600 x 600 and (thorough) 1100 x 1000 cells
+    cases.push(SeqCase::full(2, lcg_seq(4, 600, 40), lcg_seq(5, 600, 40)));
+    cases.push(SeqCase::full(2, lcg_seq(6, 520, 3), lcg_seq(7, 515, 3)));
+    if tier == Tier::Thorough {
+        cases.push(SeqCase::full(2, lcg_seq(8, 1100, 50), lcg_seq(9, 1000, 50)));
+        cases.push(SeqCase::full(2, lcg_seq(10, 12, 5), lcg_seq(11, 110_000, 5)));
+    }
+    for mut c in cases {
+        c.mode = MODE_LARGE;
+        if !f(c) {
+            return;
+        }
+    }
 }
 
 fn enum_full(tier: Tier, f: &mut dyn FnMut(SeqCase) -> bool) {
@@ -147,7 +232,7 @@ impl Prop for C01 {
     type Case = SeqCase;
     const ID: &'static str = "C01";
     fn rule() -> String {
-        "cases = (algorithm, old, new, old_range, new_range); generated by (1) size-ordered enumeration of all pairs over a 3-letter alphabet (full range) and all pairs over a 2-letter alphabet x all in-bounds range pairs, (2) proptest mixture (independent small alphabets, mutate(old), periodic, permutations, unique markers, forced common prefix/suffix; sub-ranges with probability 1/2). Each case is diffed 4 ways (slices+ranges, per-module entry over a range-checked lookup, IdentifyDistinct offset lookups, extracted slices). Non-trivial = both ranges non-empty and the stream has at least one Equal and at least one change; distinct = distinct serialized case.".into()
+        "cases = (algorithm, old, new, old_range, new_range); generated by (1) size-ordered enumeration of all pairs over a 3-letter alphabet (full range) and all pairs over a 2-letter alphabet x all in-bounds range pairs, (2) proptest mixture (independent small alphabets, mutate(old), periodic, permutations, unique markers, forced common prefix/suffix; sub-ranges with probability 1/2). Each case is diffed 4 ways (slices+ranges, per-module entry over a range-checked lookup, IdentifyDistinct offset lookups, extracted slices); 1 case in 8 instead passes ONE buffer as both old and new with independent ranges (aliasing) and compares with diffing against an equal copy; a stage of fixed large cases (edit distances in the thousands, 20 000 near-identical items, LCS tables of 360 000+ cells) is judged by validity and replay. Non-trivial = both ranges non-empty and the stream has at least one Equal and at least one change; distinct = distinct serialized case.".into()
     }
     fn assumptions() -> Vec<String> {
         vec![
@@ -171,6 +256,14 @@ impl Prop for C01 {
                     scope: format!("all (old,new) over {{0,1}} with lengths <= {} x all in-bounds (old_range,new_range) x 3 algorithms", tier.pick(3, 4)),
                     exhaustive: true,
                     gen: enum_ranges,
+                },
+            },
+            Stage {
+                name: "large",
+                kind: StageKind::Enumerate {
+                    scope: "fixed large cases: Myers/Patience with edit distance in the thousands (100 vs 2100 and 1600 vs 1600 distinct items, 3000 vs 2500 over 7 letters), 20000 near-identical items, LCS tables of 360 000 cells (thorough: 1.1 M cells and 12 x 110 000)".into(),
+                    exhaustive: true,
+                    gen: enum_large,
                 },
             },
             Stage { name: "random", kind: StageKind::Random { strategy: strat, cases: tier.pick(600_000, 4_000_000) } },
